@@ -2,12 +2,15 @@
 C13 — number-theoretic functions and modular square roots match their definitions.
 
 Theorems about the model `Model/NumTheo.lean` (a transcription of givintnumtheo.inl / givintsqrootmod.inl /
-`logp` as they are after the repairs fixes/C13_1..5).  The GMP primitives are modelled; where a theorem needs
+`logp` as they are after the repairs fixes/C13_1..5, now committed in /repo).  The GMP primitives are modelled; where a theorem needs
 the *contract* of one of them at a call site (`mpz_invert` returns the inverse of an invertible element,
 `mpz_legendre` never answers -1 on a residue) the contract is an explicit hypothesis.  Random draws are
 universally quantified (`rnd`).  All statements are for every input, modulus and exponent (no size bound).
 -/
 import GivaroModel.Lemmas.NumTheoLemmas
+import GivaroModel.Lemmas.NumTheoOrder
+import GivaroModel.Lemmas.NumTheoSqrt
+import Mathlib.NumberTheory.ArithmeticFunction.Moebius
 import GivaroModel.Spec.NumTheoSpec
 namespace Givaro.Props.C13
 open Givaro.Model.NumTheo Givaro.Lemmas.NumTheo Givaro.Spec.NumTheo
@@ -306,6 +309,600 @@ theorem sqrootlinear_reports_nonresidue (rnd : Nat → Int) (a p : Int) (k : Nat
     (h : sqrootmodprime rnd a p = some (-1)) : sqrootlinear rnd a p k = some (-1) := by
   unfold sqrootlinear; rw [h]; simp
 
+/-! ## square roots modulo prime powers, as a whole -/
+
+/-- `sqrootmodprimepower` is sound for every odd prime `p`, every exponent `k ≥ 1`, every `a` and every recursion depth:
+    a returned value other than -1 squares to `a` modulo `p^k`.  Composes the `a = b·p^t` branch, `sqrootlinear`,
+    the Hensel doubling and the one-more lift.  Hypotheses: soundness of `sqrootmodprime` at this `p` (`hprime`,
+    discharged by `sqrootmodprime_sound_of_contract` below for `p ≢ 9 mod 16`) and the contract of `mpz_invert` (`hinv`). -/
+theorem sqrootmodprimepower_sound (rnd : Nat → Int) (p : Int) (hp : Prime p) (hp2 : ¬ p ∣ 2)
+    (hprime : ∀ a' r, sqrootmodprime rnd a' p = some r → r ≠ -1 → (r * r - a') % p = 0)
+    (hinv : ∀ z m : Int, IsCoprime z m → (z * invmod z m - 1) % m = 0) :
+    ∀ (fuel : Nat) (a : Int) (k : Nat) (res : Int), 1 ≤ k →
+      sqrootmodprimepower rnd fuel a p k (p ^ k) = some res → res ≠ -1 → (res * res - a) % p ^ k = 0 := by
+  have hp0 : p ≠ 0 := hp.ne_zero
+  intro fuel
+  induction fuel with
+  | zero => intro a k res _ h; simp [sqrootmodprimepower] at h
+  | succ n ih =>
+    intro a k res hk h hne
+    have hpk : p ∣ p ^ k := dvd_pow_self p (by omega)
+    rw [sqrootmodprimepower] at h
+    simp only [] at h
+    split at h
+    · next h0 =>
+      injection h with h; subst h
+      apply sub_emod_emod; rw [h0]; simp
+    · split at h
+      · next h1 =>
+        injection h with h; subst h
+        apply sub_emod_emod; rw [h1]; simp
+      · split at h
+        · next hk1 =>
+          subst hk1
+          have := hprime _ _ h hne
+          simp only [pow_one] at this ⊢
+          exact sub_emod_emod _ _ _ this
+        · split at h
+          · next hk1 hdiv =>
+            -- a = b p^t
+            split at h
+            · next hteven =>
+              split at h
+              · simp at h
+              · next sqrtb hrec =>
+                split at h
+                · injection h with h; exact absurd h.symm hne
+                · next hsb =>
+                  injection h with h; subst h
+                  have hroot := ih _ k sqrtb hk hrec hsb
+                  have hinvt := stripP_inv p ((a % p ^ k).natAbs.log2 + 2) (a % p ^ k) 0
+                  simp only [pow_zero, mul_one] at hinvt
+                  set b := (stripP ((a % p ^ k).natAbs.log2 + 2) (a % p ^ k) p 0).1 with hb
+                  set t := (stripP ((a % p ^ k).natAbs.log2 + 2) (a % p ^ k) p 0).2 with ht
+                  apply sub_emod_emod
+                  obtain ⟨c, hc⟩ := Int.dvd_of_emod_eq_zero hroot
+                  obtain ⟨d, hd⟩ := tmod_exists (powmod p (t / 2) (p ^ k) * sqrtb) (p ^ k)
+                  rw [hd, powmod_eq]
+                  have hpe : p ^ (t / 2) % p ^ k = p ^ (t / 2) - p ^ k * (p ^ (t / 2) / p ^ k) := by
+                    have := Int.emod_add_mul_ediv (p ^ (t / 2)) (p ^ k); linarith
+                  rw [hpe, ← hinvt]
+                  have htt : p ^ t = p ^ (t / 2) * p ^ (t / 2) := by
+                    rw [← pow_add]; congr 1; omega
+                  rw [htt]
+                  apply Int.emod_eq_zero_of_dvd
+                  generalize p ^ (t / 2) / p ^ k = q
+                  generalize p ^ (t / 2) = P
+                  generalize p ^ k = M at hc ⊢
+                  refine ⟨P * P * c - 2 * P * sqrtb * sqrtb * q + M * q * q * sqrtb * sqrtb - 2 * (P - M * q) * sqrtb * d + M * d * d, ?_⟩
+                  linear_combination (P * P) * hc
+            · injection h with h; exact absurd h.symm hne
+          · next hk1 hdiv =>
+            have hna : ¬ p ∣ a := not_dvd_of_tmod_ne p a (p ^ k) hpk hdiv
+            split at h
+            · next hk3 =>
+              -- linear version, k = 2
+              have hk2 : k = 2 := by omega
+              subst hk2
+              unfold sqrootlinear at h
+              cases hsp : sqrootmodprime rnd a p with
+              | none => rw [hsp] at h; simp at h
+              | some x =>
+                rw [hsp] at h
+                simp only [Option.map_some, Option.some.injEq] at h
+                by_cases hx1 : x = -1
+                · rw [if_pos hx1] at h; exact absurd (h.symm.trans hx1) hne
+                · rw [if_neg hx1] at h
+                  subst h
+                  have hx := hprime _ _ hsp hx1
+                  have := linearLoop_sound a p hp0 1 0 x (by simpa using hx) (by
+                    intro z hz
+                    apply hinv
+                    have hc := coprime_two_root p hp hp2 a x p (dvd_refl p) hx hna 1
+                    rw [pow_one] at hc
+                    obtain ⟨u, hu⟩ := Int.dvd_of_emod_eq_zero hz
+                    have : z = x * 2 + p * u := by linarith
+                    rw [this]
+                    exact IsCoprime.add_mul_left_left hc u)
+                  simpa using this
+            · next hk3 =>
+              split at h
+              · next hodd =>
+                -- k odd ≥ 3
+                split at h
+                · simp at h
+                · next x hrec =>
+                  split at h
+                  · next hxm => injection h with h; rw [← h] at hne; exact absurd hxm hne
+                  · next hx1 =>
+                    split at h
+                    · next hxm => injection h with h; rw [← h] at hne; exact absurd hxm hne
+                    · next hx2 =>
+                      injection h with h; subst h
+                      have hkd : 1 ≤ k / 2 := by omega
+                      have hx := ih a (k / 2) x hkd hrec hx1
+                      have hpkd : p ∣ p ^ (k / 2) := dvd_pow_self p (by omega)
+                      have hc1 := coprime_two_root p hp hp2 a x _ hpkd hx hna (k / 2)
+                      have h1 := hensel_step_exact x a (p ^ (k / 2)) (pow_ne_zero _ hp0) hx (hinv _ _ hc1)
+                      rw [tdiv_pow_self p hp0 k hk]
+                      have e1 : p ^ (k / 2) * p ^ (k / 2) = p ^ (k - 1) := by
+                        rw [← pow_add]; congr 1; omega
+                      rw [e1] at h1
+                      have hpk1 : p ∣ p ^ (k - 1) := dvd_pow_self p (by omega)
+                      have hc2 := coprime_two_root p hp hp2 a _ _ hpk1 h1 hna 1
+                      rw [pow_one] at hc2
+                      have h2 := onemorelift_exact _ a p (p ^ (k - 1)) (pow_ne_zero _ hp0) hpk1 h1 (hinv _ _ hc2)
+                      have e2 : p ^ (k - 1) * p = p ^ k := by
+                        rw [← pow_succ]; congr 1; omega
+                      rw [e2] at h2
+                      exact h2
+              · next heven =>
+                split at h
+                · simp at h
+                · next x hrec =>
+                  split at h
+                  · injection h with h; exact absurd h.symm hne
+                  · next hx1 =>
+                    injection h with h; subst h
+                    have hkd : 1 ≤ k / 2 := by omega
+                    have hx := ih a (k / 2) x hkd hrec hx1
+                    have hpkd : p ∣ p ^ (k / 2) := dvd_pow_self p (by omega)
+                    have hc1 := coprime_two_root p hp hp2 a x _ hpkd hx hna (k / 2)
+                    have h1 := hensel_step_exact x a (p ^ (k / 2)) (pow_ne_zero _ hp0) hx (hinv _ _ hc1)
+                    have e1 : p ^ (k / 2) * p ^ (k / 2) = p ^ k := by
+                      rw [← pow_add]; congr 1; omega
+                    rw [e1] at h1
+                    exact h1
+
+/-! ## square roots modulo powers of two, as a whole -/
+
+/-- the correction step shared by `sqroottwolinear` and the odd-`k` branch: from a root modulo `2^(i-1)` that is not a
+    root modulo `2^i`, adding `2^(i-2)` gives a root modulo `2^i` (`i ≥ 4`, `x` odd) -/
+theorem two_step (x a : Int) (i : Nat) (hi : 4 ≤ i) (hxo : x % 2 = 1)
+    (hx : (x * x - a) % 2 ^ (i - 1) = 0) (hn : ¬ (x * x - a) % 2 ^ i = 0) :
+    ((x + 2 ^ (i - 2)) * (x + 2 ^ (i - 2)) - a) % 2 ^ i = 0 := by
+  obtain ⟨c, hc⟩ := Int.dvd_of_emod_eq_zero hx
+  have e1 : (2 : Int) ^ (i - 1) = 2 * 2 ^ (i - 2) := by
+    rw [show i - 1 = (i - 2) + 1 by omega, pow_succ]; ring
+  have e2 : (2 : Int) ^ i = 4 * 2 ^ (i - 2) := by
+    conv_lhs => rw [show i = (i - 2) + 2 by omega]
+    rw [pow_add]; ring
+  have e3 : (2 : Int) ^ (i - 2) = 4 * 2 ^ (i - 4) := by
+    conv_lhs => rw [show i - 2 = (i - 4) + 2 by omega]
+    rw [pow_add]; ring
+  have hco : c % 2 = 1 := by
+    rcases Int.emod_two_eq_zero_or_one c with h0 | h1
+    · exfalso; apply hn
+      apply Int.emod_eq_zero_of_dvd
+      refine ⟨c / 2, ?_⟩
+      have : c = 2 * (c / 2) := by omega
+      rw [hc, e1, e2]; conv_lhs => rw [this]
+      ring
+    · exact h1
+  apply Int.emod_eq_zero_of_dvd
+  refine ⟨(c + x) / 2 + 2 ^ (i - 4), ?_⟩
+  have hm : c + x = 2 * ((c + x) / 2) := by omega
+  rw [e1] at hc
+  rw [e2]
+  generalize (c + x) / 2 = m at hm ⊢
+  generalize (2 : Int) ^ (i - 4) = Q at e3 ⊢
+  generalize (2 : Int) ^ (i - 2) = P2 at hc e3 ⊢
+  linear_combination hc + (2 * P2) * hm + P2 * e3
+
+/-- the loop of `sqroottwolinear` (`k < 29`): from an odd root modulo `2^(i-1)` to a root modulo `2^(i-1+n)` after `n` rounds -/
+theorem twoLinearLoop_sound (a : Int) (ha0 : 0 ≤ a) : ∀ (n i : Nat) (x : Int), 4 ≤ i → x % 2 = 1 →
+    (x * x - a) % 2 ^ (i - 1) = 0 →
+    (twoLinearLoop a n x (2 ^ i) (2 ^ (i - 2)) * twoLinearLoop a n x (2 ^ i) (2 ^ (i - 2)) - a) % 2 ^ (i - 1 + n) = 0 := by
+  intro n
+  induction n with
+  | zero => intro i x _ _ hx; simpa [twoLinearLoop] using hx
+  | succ n ih =>
+    intro i x hi hxo hx
+    rw [twoLinearLoop]
+    have hp2 : (2 : Int) ^ i * 2 = 2 ^ (i + 1) := (pow_succ 2 i).symm
+    have hp3 : (2 : Int) ^ i / 2 = 2 ^ (i + 1 - 2) := by
+      have : (2 : Int) ^ i = 2 * 2 ^ (i + 1 - 2) := by
+        conv_lhs => rw [show i = (i + 1 - 2) + 1 by omega]
+        rw [pow_succ]; ring
+      rw [this, Int.mul_ediv_cancel_left _ (by norm_num)]
+    rw [hp2, hp3]
+    have hpos : (0 : Int) < 2 ^ i := by positivity
+    have hiff : (Int.tmod (x * x) (2 ^ i) ≠ Int.tmod a (2 ^ i)) ↔ ¬ (x * x - a) % 2 ^ i = 0 := by
+      rw [Int.tmod_eq_emod_of_nonneg (mul_self_nonneg x), Int.tmod_eq_emod_of_nonneg ha0]
+      rw [not_iff_not]
+      exact Int.emod_eq_emod_iff_emod_sub_eq_zero
+    have e : i - 1 + (n + 1) = (i + 1) - 1 + n := by omega
+    rw [e]
+    by_cases hc : (x * x - a) % 2 ^ i = 0
+    · rw [if_neg (by rw [hiff]; exact not_not.mpr hc)]
+      exact ih (i + 1) x (by omega) hxo (by simpa using hc)
+    · rw [if_pos (hiff.mpr hc)]
+      have hs := two_step x a i hi hxo hx hc
+      have hodd : (x + 2 ^ (i - 2)) % 2 = 1 := by
+        have : (2 : Int) ^ (i - 2) = 2 * 2 ^ (i - 3) := by
+          conv_lhs => rw [show i - 2 = (i - 3) + 1 by omega]
+          rw [pow_succ]; ring
+        rw [this]; omega
+      exact ih (i + 1) _ (by omega) hodd (by simpa using hs)
+
+/-- the `k ≥ 29` branch after its recursive call: quadratic 2-adic lift and, for odd `k`, the correction by `2^(k-2)` -/
+theorem twoBigFinish_sound (hinv : ∀ z m : Int, IsCoprime z m → (z * invmod z m - 1) % m = 0)
+    (x t : Int) (k : Nat) (hk29 : 29 ≤ k) (hto : t % 2 = 1)
+    (hx : (x * x - t) % 2 ^ (k / 2 + 1) = 0)
+    (hne : twoBigFinish x t k (2 ^ k) (2 ^ (k / 2 + 1)) ≠ -1) :
+    (twoBigFinish x t k (2 ^ k) (2 ^ (k / 2 + 1)) * twoBigFinish x t k (2 ^ k) (2 ^ (k / 2 + 1)) - t) % 2 ^ k = 0 := by
+  have hk4 : 4 ≤ k := by omega
+  have h2m : (2 : Int) ∣ 2 ^ (k / 2 + 1) := dvd_pow_self 2 (by omega)
+  have hxo := odd_of_sq_congr x _ _ h2m hx hto
+  have hhalf : (2 : Int) ^ (k / 2 + 1) / 2 = 2 ^ (k / 2) := by
+    rw [pow_succ, Int.mul_ediv_cancel _ (by norm_num)]
+  have hl := twolift_exact x t (2 ^ (k / 2 + 1))
+    (by rw [hhalf]; positivity) (by rw [hhalf, pow_succ]; ring) hx
+    (by rw [hhalf]; exact hinv _ _ (coprime_odd_pow x hxo _))
+  rw [hhalf, ← pow_add] at hl
+  unfold twoBigFinish at hne ⊢
+  simp only [] at hne ⊢
+  split
+  · next hxm => rw [if_pos hxm] at hne; exact absurd hxm hne
+  · next hx1 =>
+    rw [if_neg hx1] at hne
+    split
+    · next hke =>
+      have e : k / 2 + k / 2 = k := by omega
+      rw [e] at hl; exact hl
+    · next hko =>
+      rw [if_neg hko] at hne
+      have e : k / 2 + k / 2 = k - 1 := by omega
+      rw [e] at hl
+      split
+      · next hxm => rw [if_pos hxm] at hne; exact absurd hxm hne
+      · next hx2 =>
+        have h2m' : (2 : Int) ∣ 2 ^ (k - 1) := dvd_pow_self 2 (by omega)
+        have hxo' := odd_of_sq_congr _ _ _ h2m' hl hto
+        split
+        · next hu =>
+          have := tmod_dvd_sub (t - sqrootmodtwolift x t (2 ^ (k / 2 + 1)) * sqrootmodtwolift x t (2 ^ (k / 2 + 1))) (2 ^ k)
+          rw [hu] at this
+          apply Int.emod_eq_zero_of_dvd
+          obtain ⟨w, hw⟩ := this
+          exact ⟨w, by linarith⟩
+        · next hu =>
+          have hq : (2 : Int) ^ k / 4 = 2 ^ (k - 2) := by
+            have : (2 : Int) ^ k = 4 * 2 ^ (k - 2) := by
+              conv_lhs => rw [show k = (k - 2) + 2 by omega]
+              rw [pow_add]; ring
+            rw [this, Int.mul_ediv_cancel_left _ (by norm_num)]
+          rw [hq]
+          apply two_step _ _ k hk4 hxo' hl
+          intro hc
+          apply hu
+          apply Int.tmod_eq_zero_of_dvd
+          obtain ⟨w, hw⟩ := Int.dvd_of_emod_eq_zero hc
+          exact ⟨-w, by linarith⟩
+
+/-- `sqrootmodpoweroftwo` is sound for every `k ≥ 1`, every `a` (any sign, any size) and every recursion depth:
+    a returned value other than -1 squares to `a` modulo `2^k`.  Covers k = 1, 2, 3, the `a = b·4^s` branch, the linear
+    version (`k < 29`) and the quadratic version (`k ≥ 29`, both parities).  Hypothesis: the contract of `mpz_invert`. -/
+theorem sqrootmodpoweroftwo_sound (hinv : ∀ z m : Int, IsCoprime z m → (z * invmod z m - 1) % m = 0) :
+    ∀ (fuel : Nat) (a : Int) (k : Nat) (res : Int), 1 ≤ k →
+      sqrootmodpoweroftwo fuel a k (2 ^ k) = some res → res ≠ -1 → (res * res - a) % 2 ^ k = 0 := by
+  intro fuel
+  induction fuel with
+  | zero => intro a k res _ h; simp [sqrootmodpoweroftwo] at h
+  | succ n ih =>
+    intro a k res hk h hne
+    rw [sqrootmodpoweroftwo] at h
+    simp only [] at h
+    split at h
+    · next hk1 =>
+      subst hk1
+      injection h with h; subst h
+      simp only [pow_one]
+      rcases Int.emod_two_eq_zero_or_one a with h0 | h1
+      · rw [h0]; omega
+      · rw [h1]; omega
+    · split at h
+      · next hk1 hk2 =>
+        subst hk2
+        apply sub_emod_emod
+        split at h
+        · next h0 => injection h with h; subst h; rw [h0]; simp
+        · split at h
+          · next h1 => injection h with h; subst h; rw [h1]; simp
+          · injection h with h; exact absurd h.symm hne
+      · split at h
+        · next hk1 hk2 hk3 =>
+          subst hk3
+          injection h with h; subst h
+          apply sub_emod_emod
+          have := sqrootmod8_sound _ hne
+          norm_num at this ⊢
+          exact this
+        · split at h
+          · next h0 => injection h with h; subst h; apply sub_emod_emod; rw [h0]; simp
+          · split at h
+            · next h1 => injection h with h; subst h; apply sub_emod_emod; rw [h1]; simp
+            · split at h
+              · next heven =>
+                split at h
+                · next hteven =>
+                  split at h
+                  · simp at h
+                  · next x hrec =>
+                    split at h
+                    · next hxm => injection h with h; rw [← h] at hne; exact absurd hxm hne
+                    · next hx1 =>
+                      injection h with h; subst h
+                      have hroot := ih _ k x hk hrec hx1
+                      have hinvt := stripTwo_inv ((a % 2 ^ k).natAbs.log2 + 2) (a % 2 ^ k) 0
+                      simp only [pow_zero, mul_one] at hinvt
+                      set b := (stripTwo ((a % 2 ^ k).natAbs.log2 + 2) (a % 2 ^ k) 0).1 with hb
+                      set t := (stripTwo ((a % 2 ^ k).natAbs.log2 + 2) (a % 2 ^ k) 0).2 with ht
+                      apply sub_emod_emod
+                      obtain ⟨c, hc⟩ := Int.dvd_of_emod_eq_zero hroot
+                      obtain ⟨d, hd⟩ := tmod_exists (x * 2 ^ (t / 2)) (2 ^ k)
+                      rw [hd, ← hinvt]
+                      have htt : (2 : Int) ^ t = 2 ^ (t / 2) * 2 ^ (t / 2) := by
+                        rw [← pow_add]; congr 1; omega
+                      rw [htt]
+                      apply Int.emod_eq_zero_of_dvd
+                      generalize (2 : Int) ^ (t / 2) = P
+                      generalize (2 : Int) ^ k = M at hc ⊢
+                      refine ⟨P * P * c - 2 * x * P * d + M * d * d, ?_⟩
+                      linear_combination (P * P) * hc
+                · injection h with h; exact absurd h.symm hne
+              · next hodd =>
+                have hto : (a % 2 ^ k) % 2 = 1 := by omega
+                have hk4 : 4 ≤ k := by omega
+                split at h
+                · next hk29 =>
+                  injection h with h; subst h
+                  apply sub_emod_emod
+                  unfold sqroottwolinear at hne ⊢
+                  simp only [] at hne ⊢
+                  have hk4' : ¬ k < 4 := by omega
+                  by_cases h8 : sqrootmod8 (a % 2 ^ k) = -1
+                  · rw [if_pos (Or.inl h8)] at hne; exact absurd h8 hne
+                  · rw [if_neg (by rintro (h | h); exact h8 h; exact hk4' h)]
+                    have hx8 := sqrootmod8_sound _ h8
+                    have hx1 := sqrootmod8_odd _ hto h8
+                    have := twoLinearLoop_sound (a % 2 ^ k) (Int.emod_nonneg _ (by positivity)) (k - 3) 4
+                      (sqrootmod8 (a % 2 ^ k)) (le_refl 4) (by rw [hx1]; rfl) (by norm_num; exact Int.dvd_of_emod_eq_zero hx8)
+                    have e : 4 - 1 + (k - 3) = k := by omega
+                    rw [e] at this
+                    norm_num at this ⊢
+                    exact this
+                · next hk29 =>
+                  have hk29' : 29 ≤ k := by omega
+                  have hspk : (2 : Int) * 2 ^ (k / 2) = 2 ^ (k / 2 + 1) := by rw [pow_succ]; ring
+                  rw [hspk] at h
+                  split at h
+                  · simp at h
+                  · next x hrec =>
+                    injection h with h; subst h
+                    apply sub_emod_emod
+                    have hx1 : x ≠ -1 := by
+                      intro hc; apply hne; unfold twoBigFinish; rw [if_pos hc]; exact hc
+                    have hx := ih (a % 2 ^ k) (k / 2 + 1) x (by omega) hrec hx1
+                    exact twoBigFinish_sound hinv x (a % 2 ^ k) k hk29' hto hx hne
+
+/-! ## square roots modulo a composite: CRT recombination -/
+
+/-- component-wise form: the value returned by `sqrootmod` is a root modulo every prime power of the factor list -/
+theorem sqrootmodL_sound_components (rnd : Nat → Int) (a : Int) (fs : List (Int × Nat))
+    (hinv : ∀ z m : Int, IsCoprime z m → (z * invmod z m - 1) % m = 0)
+    (hpw : List.Pairwise (fun x y : Int × Nat => IsCoprime (x.1 ^ x.2) (y.1 ^ y.2)) fs)
+    (hcomp : ∀ pe ∈ fs, ∀ r, sqrtComponent rnd a pe = some r → r ≠ -1 → (r * r - a) % pe.1 ^ pe.2 = 0)
+    (res : Int) (h : sqrootmodL rnd a fs = some res) (hne : res ≠ -1) :
+    ∀ pe ∈ fs, (res * res - a) % pe.1 ^ pe.2 = 0 := by
+  unfold sqrootmodL at h
+  simp only [] at h
+  change (if (fs.map (sqrtComponent rnd a)).any Option.isNone = true then none else _) = some res at h
+  split at h
+  · simp at h
+  · next hnone =>
+    change (if ((fs.map (sqrtComponent rnd a)).map (fun r => r.getD 0)).any (· == -1) = true then some (-1) else _) = some res at h
+    split at h
+    · injection h with h; exact absurd h.symm hne
+    · next hm1 =>
+      intro pe hpe
+      have hsome : ∃ r, sqrtComponent rnd a pe = some r := by
+        cases hc : sqrtComponent rnd a pe with
+        | some r => exact ⟨r, rfl⟩
+        | none =>
+          exfalso; apply hnone
+          simp only [List.any_map, List.any_eq_true, Function.comp]
+          exact ⟨pe, hpe, by rw [hc]; rfl⟩
+      obtain ⟨r, hr⟩ := hsome
+      have hr1 : r ≠ -1 := by
+        intro hc; apply hm1
+        simp only [List.any_map, List.any_eq_true, Function.comp]
+        exact ⟨pe, hpe, by rw [hr, hc]; rfl⟩
+      have hroot := hcomp pe hpe r hr hr1
+      -- the CRT value is congruent to r modulo pe.1^pe.2
+      have hzip : (fs.map (fun pe => pe.1 ^ pe.2)).zip ((fs.map (sqrtComponent rnd a)).map (fun r => r.getD 0))
+          = fs.map (fun pe => (pe.1 ^ pe.2, (sqrtComponent rnd a pe).getD 0)) := by
+        rw [List.map_map, List.zip_map']; rfl
+      have hpwz : List.Pairwise (fun x y : Int × Int => IsCoprime x.1 y.1)
+          ((fs.map (fun pe => pe.1 ^ pe.2)).zip ((fs.map (sqrtComponent rnd a)).map (fun r => r.getD 0))) := by
+        rw [hzip, List.pairwise_map]; exact hpw
+      have hcrt := rnsToRing_spec hinv _ _ hpwz (pe.1 ^ pe.2, r) (by
+        rw [hzip]; exact List.mem_map.mpr ⟨pe, hpe, by rw [hr]; rfl⟩)
+      simp only [] at hcrt
+      set X := rnsToRing (fs.map (fun pe => pe.1 ^ pe.2)) ((fs.map (sqrtComponent rnd a)).map (fun r => r.getD 0)) with hX
+      obtain ⟨c, hc⟩ := Int.dvd_of_emod_eq_zero hcrt
+      obtain ⟨d, hd⟩ := Int.dvd_of_emod_eq_zero hroot
+      have hres : res = if X < 0 then -X else X := by
+        injection h with h; exact h.symm
+      have hsq : res * res = X * X := by
+        rw [hres]; split <;> ring
+      rw [hsq]
+      apply Int.emod_eq_zero_of_dvd
+      exact ⟨c * (X + r) + d, by linear_combination (X + r) * hc + hd⟩
+
+/-- `sqrootmod(x, a, n)` on the factor list of `n = ∏ p_i^e_i` (pairwise coprime prime powers): a returned value other
+    than -1 squares to `a` modulo `n`.  `hcomp` is the soundness of the per-prime-power computations
+    (`sqrootmodprimepower_sound`, `sqrootmodpoweroftwo_sound`); `hinv` the contract of `mpz_invert` used by the CRT. -/
+theorem sqrootmod_sound (rnd : Nat → Int) (a : Int) (fs : List (Int × Nat))
+    (hinv : ∀ z m : Int, IsCoprime z m → (z * invmod z m - 1) % m = 0)
+    (hpw : List.Pairwise (fun x y : Int × Nat => IsCoprime (x.1 ^ x.2) (y.1 ^ y.2)) fs)
+    (hcomp : ∀ pe ∈ fs, ∀ r, sqrtComponent rnd a pe = some r → r ≠ -1 → (r * r - a) % pe.1 ^ pe.2 = 0)
+    (res : Int) (h : sqrootmodL rnd a fs = some res) (hne : res ≠ -1) :
+    (res * res - a) % (fs.map (fun pe => pe.1 ^ pe.2)).prod = 0 := by
+  apply Int.emod_eq_zero_of_dvd
+  apply prod_dvd_of_pairwise_coprime
+  · rw [List.pairwise_map]; exact hpw
+  · intro m hm
+    obtain ⟨pe, hpe, rfl⟩ := List.mem_map.mp hm
+    exact Int.dvd_of_emod_eq_zero (sqrootmodL_sound_components rnd a fs hinv hpw hcomp res h hne pe hpe)
+
+/-- the per-component hypothesis of `sqrootmod_sound` discharged from the two whole-function theorems: every `p ≠ 2` of the
+    list is an odd prime at which `sqrootmodprime` is sound, every exponent is ≥ 1 -/
+theorem sqrootmod_sound_of_parts (rnd : Nat → Int) (a : Int) (fs : List (Int × Nat))
+    (hinv : ∀ z m : Int, IsCoprime z m → (z * invmod z m - 1) % m = 0)
+    (hpw : List.Pairwise (fun x y : Int × Nat => IsCoprime (x.1 ^ x.2) (y.1 ^ y.2)) fs)
+    (hfs : ∀ pe ∈ fs, 1 ≤ pe.2 ∧ (pe.1 ≠ 2 → Prime pe.1 ∧ ¬ pe.1 ∣ 2 ∧
+      ∀ a' r, sqrootmodprime rnd a' pe.1 = some r → r ≠ -1 → (r * r - a') % pe.1 = 0))
+    (res : Int) (h : sqrootmodL rnd a fs = some res) (hne : res ≠ -1) :
+    (res * res - a) % (fs.map (fun pe => pe.1 ^ pe.2)).prod = 0 := by
+  refine sqrootmod_sound rnd a fs hinv hpw ?_ res h hne
+  intro pe hpe r hr hr1
+  obtain ⟨hk, hodd⟩ := hfs pe hpe
+  unfold sqrtComponent at hr
+  split at hr
+  · next h2 =>
+    rw [h2] at hr ⊢
+    exact sqrootmodpoweroftwo_sound hinv _ a pe.2 r hk hr hr1
+  · next h2 =>
+    obtain ⟨hp, hp2, hprime⟩ := hodd h2
+    exact sqrootmodprimepower_sound rnd pe.1 hp hp2 hprime hinv _ a pe.2 r hk hr hr1
+
+/-! ## the `mpz_legendre` contract form of the prime-level theorem; sums of two squares modulo p -/
+
+/-- `sqrootmodprime` under the contract of `mpz_legendre` ("never -1 … unless a non-residue" read as: an answer other than -1
+    means `a` is a square): a returned value other than -1 is a root, for every `a` — the form needed by
+    `sqrootmodprimepower_sound` (`hprime`).  Primes `p ≢ 9 (mod 16)`. -/
+theorem sqrootmodprime_sound_of_contract (rnd : Nat → Int) (p : Nat) [Fact p.Prime] (hM : p % 16 ≠ 9)
+    (hleg : ∀ a' : Int, legendre (a' % (p : Int)) p ≠ -1 → IsSquare (a' : ZMod p)) :
+    ∀ (a' r : Int), sqrootmodprime rnd a' p = some r → r ≠ -1 → (r * r - a') % (p : Int) = 0 := by
+  intro a' r h hne
+  by_cases hsq : IsSquare (a' : ZMod p)
+  · exact sqrootmodprime_sound_partial rnd a' p hM hsq r h hne
+  · exfalso
+    have hl : legendre (a' % (p : Int)) p = -1 := by
+      by_contra hc; exact hsq (hleg a' hc)
+    have hz : ((a' % (p : Int) : Int) : ZMod p) = (a' : ZMod p) := ZMod.intCast_mod a' p
+    have h01 : ¬ (a' % (p : Int) = 0 ∨ a' % (p : Int) = 1) := by
+      rintro (h0 | h1)
+      · apply hsq; rw [← hz, h0]; exact ⟨0, by simp⟩
+      · apply hsq; rw [← hz, h1]; exact ⟨1, by simp⟩
+    rw [sqrootmodprime_reports_nonresidue rnd a' p h01 hl] at h
+    injection h with h
+    exact hne h.symm
+
+theorem leastNonresidue_spec (p : Int) : ∀ (fuel : Nat) (s l : Int), leastNonresidue p fuel s = some l → legendre l p = -1 := by
+  intro fuel
+  induction fuel with
+  | zero => intro s l h; simp [leastNonresidue] at h
+  | succ n ih =>
+    intro s l h
+    rw [leastNonresidue] at h
+    split at h
+    · next hs => injection h with h; rw [← h]; exact hs
+    · exact ih _ _ h
+
+/-- `sumofsquaresmodprimewithnonresidue(a, b, k, s, p)`: unless one of its two square-root calls reported -1, the returned pair
+    satisfies `a² + b² ≡ k (mod p)`.  Hypotheses: soundness of `sqrootmodprime` at `p` and `mpz_invert` returning the inverse of `s`. -/
+theorem sosqWithNonresidue_sound (rnd : Nat → Int) (k s p : Int)
+    (hprime : ∀ a' r, sqrootmodprime rnd a' p = some r → r ≠ -1 → (r * r - a') % p = 0)
+    (hinvs : (s * invmod s p - 1) % p = 0) (a b : Int)
+    (h : sosqWithNonresidue rnd k s p = some (a, b)) :
+    sqrootmodprime rnd (s - 1) p = some (-1) ∨ a = -1 ∨ (a * a + b * b - k) % p = 0 := by
+  unfold sosqWithNonresidue at h
+  simp only [] at h
+  split at h
+  · simp at h
+  · next b0 hb0 =>
+    split at h
+    · simp at h
+    · next a0 ha0 =>
+      simp only [Option.some.injEq, Prod.mk.injEq] at h
+      obtain ⟨h1, h2⟩ := h
+      subst h1
+      by_cases hb1 : b0 = -1
+      · left; rw [hb0, hb1]
+      by_cases ha1 : a0 = -1
+      · right; left; exact ha1
+      right; right
+      obtain ⟨c1, hc1⟩ := Int.dvd_of_emod_eq_zero (hprime _ _ hb0 hb1)
+      obtain ⟨c2, hc2⟩ := Int.dvd_of_emod_eq_zero (hprime _ _ ha0 ha1)
+      obtain ⟨e, he⟩ := Int.dvd_of_emod_eq_zero hinvs
+      obtain ⟨d, hd⟩ := tmod_exists (b0 * a0) p
+      have hr : k * invmod s p % p = k * invmod s p - p * (k * invmod s p / p) := by
+        have := Int.emod_add_mul_ediv (k * invmod s p) p; linarith
+      rw [hr] at hc2
+      rw [← h2, hd]
+      apply Int.emod_eq_zero_of_dvd
+      generalize k * invmod s p / p = q at hc2
+      generalize invmod s p = il at hc2 he
+      refine ⟨k * e - q * s + c2 * s + a0 * a0 * c1 - 2 * b0 * a0 * d + p * d * d, ?_⟩
+      linear_combination (a0 * a0) * hc1 + s * hc2 + k * he
+
+/-- `sumofsquaresmodprime(a, b, k, p)` (= `…Deterministic`): unless a square-root call reported -1 (which the
+    `mpz_legendre` tests made before each call exclude for a correct `sqrootmodprime`), `a² + b² ≡ k (mod p)` -/
+theorem sosqDeterministic_sound (rnd : Nat → Int) (k p : Int)
+    (hprime : ∀ a' r, sqrootmodprime rnd a' p = some r → r ≠ -1 → (r * r - a') % p = 0)
+    (hinv : ∀ s : Int, legendre s p = -1 → (s * invmod s p - 1) % p = 0) (a b : Int)
+    (h : sosqDeterministic rnd k p = some (a, b)) :
+    a = -1 ∨ b = -1 ∨ (∃ s, sqrootmodprime rnd (s - 1) p = some (-1)) ∨ (a * a + b * b - k) % p = 0 := by
+  unfold sosqDeterministic at h
+  simp only [] at h
+  split at h
+  · next h0 =>
+    simp only [Option.some.injEq, Prod.mk.injEq] at h
+    right; right; right
+    rw [← h.1, ← h.2]
+    apply Int.emod_eq_zero_of_dvd
+    simpa using Int.dvd_of_emod_eq_zero h0
+  · split at h
+    · cases hs : sqrootmodprime rnd (k % p) p with
+      | none => rw [hs] at h; simp at h
+      | some a0 =>
+        rw [hs] at h
+        simp only [Option.map_some, Option.some.injEq, Prod.mk.injEq] at h
+        by_cases ha1 : a0 = -1
+        · left; rw [← h.1]; exact ha1
+        right; right; right
+        have := hprime _ _ hs ha1
+        rw [← h.1, ← h.2]
+        have h2 := sub_emod_emod _ _ _ this
+        simpa using h2
+    · split at h
+      · cases hs : sqrootmodprime rnd (k % p - 1) p with
+        | none => rw [hs] at h; simp at h
+        | some b0 =>
+          rw [hs] at h
+          simp only [Option.map_some, Option.some.injEq, Prod.mk.injEq] at h
+          by_cases hb1 : b0 = -1
+          · right; left; rw [← h.2]; exact hb1
+          right; right; right
+          obtain ⟨c, hc⟩ := Int.dvd_of_emod_eq_zero (hprime _ _ hs hb1)
+          rw [← h.1, ← h.2]
+          apply sub_emod_emod
+          apply Int.emod_eq_zero_of_dvd
+          exact ⟨c, by linear_combination hc⟩
+      · split at h
+        · simp at h
+        · next l hl =>
+          have hleg : legendre l p = -1 := leastNonresidue_spec p _ _ _ hl
+          rcases sosqWithNonresidue_sound rnd (k % p) l p hprime (hinv l hleg) a b h with h1 | h1 | h1
+          · right; right; left; exact ⟨l, h1⟩
+          · left; exact h1
+          · right; right; right; exact sub_emod_emod _ _ _ (by
+              obtain ⟨c, hc⟩ := Int.dvd_of_emod_eq_zero h1
+              apply Int.emod_eq_zero_of_dvd
+              exact ⟨c, by linear_combination hc⟩)
+
 /-! ## certificates (outputs the property does not determine are decided by these checkers) -/
 
 theorem sqrt_certificate (a x n : Int) : sqrtChk a x n = true ↔ (x * x - a) % n = 0 := by
@@ -354,6 +951,128 @@ example : [3, 2].Nodup ∧ ∀ q, q ∈ [3, 2] ↔ q ∈ (12 : Nat).primeFactors
   have : (12 : Nat).primeFactors = {2, 3} := by decide +kernel
   intro q; rw [this]; simp; tauto
 
+/-! ## multiplicative order, primitive-root test -/
+
+/-- `order(g, p, n)` returns the multiplicative order of `p` in `Z/n` — `orderOf`, which is 0 exactly when `p` is not a unit —
+    for every `p` and every modulus `n ≥ 2`, given that the factor list of `φ(n)` is well formed. -/
+theorem order_exact (a : Int) (n : Nat) (hn : 2 ≤ n) (Lf : List Nat) (hF : PhiFactors n Lf) :
+    order a n = (orderOf (a : ZMod n) : Int) := by
+  have : Fact (1 < n) := ⟨by omega⟩
+  have hz : ((a % (n : Int) : Int) : ZMod n) = (a : ZMod n) := ZMod.intCast_mod a n
+  unfold order
+  simp only []
+  split
+  · next h0 =>
+    have : (a : ZMod n) = 0 := by rw [← hz, h0]; simp
+    rw [this]
+    have : orderOf (0 : ZMod n) = 0 := by
+      rw [orderOf_eq_zero_iff']; intro k hk; rw [zero_pow (by omega)]; exact zero_ne_one
+    rw [this]; rfl
+  · split
+    · next h1 =>
+      have : (a : ZMod n) = 1 := by rw [← hz, h1]; simp
+      rw [this, orderOf_one]; rfl
+    · split
+      · next hc =>
+        have hP : ∀ e : Nat, powmod (a % (n : Int)) e n = 1 ↔ (a : ZMod n) ^ e = 1 := by
+          intro e; rw [powmod_eq_one_iff _ n hn, hz]
+        have hphi0 : 0 < n.totient := Nat.totient_pos.mpr (by omega)
+        have hxphi := pow_totient_of_coprime a n hn hc
+        rw [hF.list_eq, hF.phi_eq]
+        have h2 : ∀ f ∈ Lf, 2 ≤ f := fun f hf => (hF.prime f hf).two_le
+        split
+        · next hnone =>
+          have hne := firstHit_none (a : ZMod n) _ hP n.totient Lf (fun f hf => by have := h2 f hf; omega) hnone
+          have := orderOf_eq_of_pow_and_pow_div_prime hphi0 hxphi
+            (fun q hq hd => hne q (hF.all q hq hd))
+          rw [this]
+        · next g rest hsome =>
+          obtain ⟨l1, fh, l2, e1, e2, e3, e4, e5⟩ := firstHit_some (a : ZMod n) _ hP n.totient Lf g rest hsome
+          have hfh : fh ∈ Lf := by rw [e1]; simp
+          have hfd : fh ∣ n.totient := hF.dvd fh hfh
+          have hg0 : 0 < n.totient / fh := Nat.div_pos (Nat.le_of_dvd hphi0 hfd) (by have := h2 fh hfh; omega)
+          rw [e2, e3]
+          obtain ⟨G', r1, r2, r3, r4, r5⟩ := stripAll_spec (a : ZMod n) _ hP (fh :: l2) (n.totient / fh)
+            (fun f hf => h2 f (by rw [e1]; simp only [List.mem_append]; exact Or.inr hf)) hg0 e5
+          rw [r1]
+          have hGphi : G' ∣ n.totient := dvd_trans r3 (Nat.div_dvd_of_dvd hfd)
+          have := orderOf_eq_of_pow_and_pow_div_prime r2 r4 (fun q hq hd => by
+            have hqL : q ∈ Lf := hF.all q hq (dvd_trans hd hGphi)
+            rw [e1] at hqL
+            rcases List.mem_append.mp hqL with h | h
+            · have hgood : Good (a : ZMod n) q n.totient := fun _ => e4 q h
+              exact (Good.mono _ r2 hq.pos hGphi hgood) hd
+            · exact r5 q h hd)
+          rw [this]
+      · next hc =>
+        rw [orderOf_eq_zero_of_not_coprime a n hn hc]; rfl
+
+/-- `is_prim_root(p, n)` is true exactly when `p` has order `φ(n)` in `Z/n` (in particular `p` is a unit), every `p`, `n ≥ 2` -/
+theorem is_prim_root_iff (a : Int) (n : Nat) (hn : 2 ≤ n) (Lf : List Nat) (hF : PhiFactors n Lf) :
+    isPrimRoot a n = true ↔ orderOf (a : ZMod n) = n.totient := by
+  have hz : ((a % (n : Int) : Int) : ZMod n) = (a : ZMod n) := ZMod.intCast_mod a n
+  have hphi0 : 0 < n.totient := Nat.totient_pos.mpr (by omega)
+  unfold isPrimRoot
+  simp only []
+  split
+  · next hc =>
+    have hP : ∀ e : Nat, powmod (a % (n : Int)) e n = 1 ↔ (a : ZMod n) ^ e = 1 := by
+      intro e; rw [powmod_eq_one_iff _ n hn, hz]
+    have hxphi := pow_totient_of_coprime a n hn hc
+    rw [hF.list_eq, hF.phi_eq]
+    have hall : (List.map (Nat.cast : Nat → Int) Lf).all (fun f => powmod (a % (n : Int)) (Int.tdiv (n.totient : Int) f).toNat n != 1) = true
+        ↔ ∀ f ∈ Lf, (a : ZMod n) ^ (n.totient / f) ≠ 1 := by
+      simp only [List.all_eq_true, List.mem_map, forall_exists_index, and_imp, forall_apply_eq_imp_iff₂, bne_iff_ne, ne_eq]
+      constructor
+      · intro h f hf hx
+        apply h f hf
+        have htd : Int.tdiv (n.totient : Int) (f : Int) = ((n.totient / f : Nat) : Int) := by
+          rw [Int.tdiv_eq_ediv_of_nonneg (by positivity)]; norm_cast
+        rw [htd, Int.toNat_natCast, hP]; exact hx
+      · intro h f hf hx
+        apply h f hf
+        have htd : Int.tdiv (n.totient : Int) (f : Int) = ((n.totient / f : Nat) : Int) := by
+          rw [Int.tdiv_eq_ediv_of_nonneg (by positivity)]; norm_cast
+        rw [htd, Int.toNat_natCast, hP] at hx; exact hx
+    rw [hall]
+    constructor
+    · intro h
+      exact orderOf_eq_of_pow_and_pow_div_prime hphi0 hxphi (fun q hq hd => h q (hF.all q hq hd))
+    · intro h f hf hx
+      have hfp := hF.prime f hf
+      have hfd := hF.dvd f hf
+      have hd : orderOf (a : ZMod n) ∣ n.totient / f := orderOf_dvd_of_pow_eq_one hx
+      rw [h] at hd
+      have hpos : 0 < n.totient / f := Nat.div_pos (Nat.le_of_dvd hphi0 hfd) hfp.pos
+      have hle := Nat.le_of_dvd hpos hd
+      have hlt : n.totient / f < n.totient := Nat.div_lt_self hphi0 hfp.one_lt
+      omega
+  · next hc =>
+    rw [orderOf_eq_zero_of_not_coprime a n hn hc]
+    constructor
+    · intro h; exact absurd h (by simp)
+    · intro h; omega
+
+/-- `isorder(g, p, n)` is true exactly when `g` is the order of `p` in `Z/n` (`g = 0`: `p` is not a unit) -/
+theorem isorder_iff (g : Nat) (a : Int) (n : Nat) (hn : 2 ≤ n) (Lf : List Nat) (hF : PhiFactors n Lf) :
+    isOrder g a n = true ↔ orderOf (a : ZMod n) = g := by
+  unfold isOrder
+  rw [order_exact a n hn Lf hF, Int.toNat_natCast]
+  simp only [Bool.and_eq_true, beq_iff_eq]
+  constructor
+  · rintro ⟨_, h2⟩; exact_mod_cast h2.symm
+  · intro h
+    refine ⟨?_, by rw [h]⟩
+    rw [powmod_eq_one_iff a n hn, ← h, pow_orderOf_eq_one]
+
+example : PhiFactors 7 [2, 3] :=
+  ⟨by decide +kernel, by decide +kernel, by decide, by decide +kernel, by
+    intro q hq hd
+    have h6 : (7 : Nat).totient = 6 := by decide +kernel
+    rw [h6] at hd
+    have hle := Nat.le_of_dvd (by norm_num) hd
+    interval_cases q <;> simp_all (config := {decide := true})⟩
+
 /-! ## Moebius -/
 
 /-- mobius on the exponent list: 0 iff some exponent exceeds 1, else (-1)^(number of primes) -/
@@ -372,10 +1091,8 @@ theorem mobiusGo_spec : ∀ (es : List Nat) (mob : Int),
       simp only [he, ↓reduceIte, ih, List.all_cons, h1, decide_true, Bool.true_and, List.length_cons]
       split <;> ring
 
-/-- `mobius(lpow)` on the list of exponents of the factorisation: 0 as soon as an exponent exceeds 1, otherwise
-    (-1)^(number of prime factors) — the definition of μ read on the exponent vector.
-    Full statement (not proved): `= ArithmeticFunction.moebius n` for the exponent vector of `n`. -/
-theorem mobius_exact_partial (es : List Nat) :
+/-- `mobius(lpow)` on a list of exponents: 0 as soon as an exponent exceeds 1, otherwise (-1)^(length) -/
+theorem mobiusL_spec (es : List Nat) :
     mobiusL es = if es.all (· ≤ 1) then (-1) ^ es.length else 0 := by
   unfold mobiusL
   by_cases h : es.length ≠ 0
@@ -385,6 +1102,39 @@ theorem mobius_exact_partial (es : List Nat) :
       | nil => rfl
       | cons a t => simp at h
     subst this; simp
+
+/-- `mobius(lpow)` on the exponents of the factorisation of `n ≥ 1` is Mathlib's Möbius function of `n`.
+    `fs` lists the prime divisors of `n` once each with their multiplicities (contract of `IntFactorDom::set(Lf, Le, n)`). -/
+theorem mobius_exact (n : Nat) (hn : n ≠ 0) (fs : List (Nat × Nat))
+    (hnd : (fs.map Prod.fst).Nodup) (hmem : ∀ p, p ∈ fs.map Prod.fst ↔ p ∈ n.primeFactors)
+    (hexp : ∀ pe ∈ fs, pe.2 = n.factorization pe.1) :
+    mobiusL (fs.map Prod.snd) = ArithmeticFunction.moebius n := by
+  rw [mobiusL_spec]
+  have hsq : (fs.map Prod.snd).all (· ≤ 1) = true ↔ Squarefree n := by
+    rw [Nat.squarefree_iff_factorization_le_one hn]
+    simp only [List.all_eq_true, List.mem_map, forall_exists_index, and_imp, decide_eq_true_eq]
+    constructor
+    · intro h p
+      by_cases hp : p ∈ n.primeFactors
+      · obtain ⟨pe, hpe, rfl⟩ := List.mem_map.mp ((hmem p).mpr hp)
+        rw [← hexp pe hpe]; exact h pe.2 pe hpe rfl
+      · have : n.factorization p = 0 := by
+          rw [← Finsupp.notMem_support_iff, Nat.support_factorization]; exact hp
+        omega
+    · intro h e pe hpe he
+      rw [← he, hexp pe hpe]; exact h pe.1
+  have hlen : (fs.map Prod.snd).length = n.primeFactors.card := by
+    have hfin : (fs.map Prod.fst).toFinset = n.primeFactors := by ext q; simp only [List.mem_toFinset]; exact hmem q
+    rw [← hfin, List.toFinset_card_of_nodup hnd]; simp
+  by_cases h : Squarefree n
+  · rw [if_pos (hsq.mpr h), ArithmeticFunction.moebius_apply_of_squarefree h, ArithmeticFunction.cardFactors_apply, hlen]
+    have hnodup := (Nat.squarefree_iff_nodup_primeFactorsList hn).mp h
+    have : n.primeFactors.card = n.primeFactorsList.length := by
+      unfold Nat.primeFactors; exact List.toFinset_card_of_nodup hnodup
+    rw [this]
+  · rw [if_neg (fun hc => h (hsq.mp hc)), ArithmeticFunction.moebius_eq_zero_of_not_squarefree h]
+
+example : (12 : Nat) ≠ 0 ∧ ([(2, 2), (3, 1)].map Prod.fst).Nodup := ⟨by decide, by decide⟩
 
 /-! ## Carmichael functions -/
 
